@@ -420,7 +420,7 @@ bool AnalyserModel::areEquivalentVariables(const VariablePtr &variable1,
 
 #ifdef LIBCELLML_VERIF
     if (verif::equivalenceCacheObserver != nullptr) {
-        verif::equivalenceCacheObserver(this, v1, v2, key, cacheKey != mPimpl->mCachedEquivalentVariables.end(), mPimpl->mCachedEquivalentVariables.size());
+        verif::equivalenceCacheObserver(this, v1, v2, &key, sizeof(key), cacheKey != mPimpl->mCachedEquivalentVariables.end(), mPimpl->mCachedEquivalentVariables.size());
     }
 #endif
 
